@@ -512,8 +512,8 @@ func crashOps(seed int64, wl int) []*hx.Op {
 	}
 	pool := newCasePool(seed+int64(wl)*77, []string{fam}, 30, func(p *hx.Profile) {
 		p.Blocks = false
-		p.Expiry = false
-		p.ExpireProb = 0
+		p.Expiry = true // keys with a time-to-live take part (instants whole hours away: nothing passes during the run)
+		p.ExpireProb = 0.1
 		p.MinSteps, p.MaxSteps = 20, 20
 	}, func(st *hx.Step) bool { return usable(st) && st.Ops[0].Write })
 	var ops []*hx.Op
